@@ -2,7 +2,8 @@
    ExtrOcamlBasic only: bool, option, list, prod, unit, sumbool map to OCaml's;
    nat, N, Z, positive keep their Coq definitions.  No Extract Constant. *)
 From Coq Require Extraction ExtrOcamlBasic.
-From SV Require Import Base Regex.
-From SV.gen Require Import RegexGen.
+From SV Require Import Base Regex Calendar Inputs.
+From SV.gen Require Import RegexGen PureGen.
 Extraction Language OCaml.
-Extraction "sv.ml" pattern_table rmatch rsearch finditer.
+Extraction "sv.ml" pattern_table rmatch rsearch finditer
+  parse_value match_range validate_day validate_week iso_weeks.
